@@ -190,6 +190,21 @@ def _files(ctx, case):
     fcfg = case["fcfg"]
     rng = random.Random(case["lseed"])
     files = [c02.gen_ip_lines(rng, fcfg, rng.randint(1, 15)) for _ in range(case["nfiles"])]
+    # a last file whose addresses are the IMAGES of addresses seen earlier in the run (anonymizing output
+    # that was already anonymized, or a network that happens to use those addresses)
+    r0 = ipref.Ref(fcfg)
+    again = []
+    for f in files:
+        for segs in f:
+            for t, lab in segs:
+                if lab["t"] == "v4" and not r0.untouched4(lab["v"]) and rng.random() < 0.5:
+                    img = r0.fwd4(lab["v"])
+                    again.append([["ip route ", {"t": "d"}], [ipref.s4(img), {"t": "v4", "v": img}], [" 255.255.255.255", {"t": "d"}]])
+                elif lab["t"] == "v6" and rng.random() < 0.5:
+                    img = r0.fwd6(lab["v"])
+                    again.append([["ipv6 route ", {"t": "d"}], [ipref.s6(img), {"t": "v6", "v": img}], ["/128", {"t": "d"}]])
+    if again:
+        files.append(again[:20])
     # shared addresses across files so that the runs interact through the memo
     texts = [[lines.text_of(s) + "\n" for s in f] for f in files]
     flat = [ln for t in texts for ln in t]
